@@ -652,3 +652,23 @@ pub proof fn lemma_removed_before_is_len_between(m: Seq<(Range<usize>, Option<us
     }
 }
 } // verus!
+verus! {
+// ------------------------------------------------------------------ HashMap<String, V> built by insert (assumed std semantics, cf. str_lookup)
+#[verifier::external_body]
+pub broadcast proof fn axiom_str_lookup_empty<V>(k: Seq<char>)
+    ensures #[trigger] str_lookup(Map::<String, V>::empty(), k) == None::<V> {}
+#[verifier::external_body]
+pub broadcast proof fn axiom_str_lookup_insert<V>(m: Map<String, V>, key: String, v: V, k: Seq<char>)
+    ensures #[trigger] str_lookup(m.insert(key, v), k) == (if key@ == k { Some(v) } else { str_lookup(m, k) }) {}
+} // verus!
+verus! {
+#[verifier::external_body]
+pub proof fn axiom_string_len_isize(s: &String)
+    ensures encode_utf8(s@).len() <= isize::MAX,
+{}
+/// Rust never allocates more than isize::MAX bytes (the String behind an Rc is such an allocation)
+#[verifier::external_body]
+pub proof fn axiom_rc_string_len_isize(s: std::rc::Rc<String>)
+    ensures encode_utf8(s@).len() <= isize::MAX,
+{}
+} // verus!
